@@ -677,8 +677,10 @@ impl HeightField {
         &self,
         aabb: &Aabb,
     ) -> (Range<isize>, Range<isize>) {
-        let ref_mins = aabb.mins.coords.component_div(&self.scale);
-        let ref_maxs = aabb.maxs.coords.component_div(&self.scale);
+        // NOTE: a negative scale factor mirrors the box in the unscaled frame: re-order its corners component-wise.
+        let ref_a = aabb.mins.coords.component_div(&self.scale);
+        let ref_b = aabb.maxs.coords.component_div(&self.scale);
+        let (ref_mins, ref_maxs) = (ref_a.inf(&ref_b), ref_a.sup(&ref_b));
         let cell_width = self.unit_cell_width();
         let cell_height = self.unit_cell_height();
 
@@ -695,8 +697,10 @@ impl HeightField {
         let ncells_x = self.ncols();
         let ncells_z = self.nrows();
 
-        let ref_mins = aabb.mins.coords.component_div(&self.scale);
-        let ref_maxs = aabb.maxs.coords.component_div(&self.scale);
+        // NOTE: a negative scale factor mirrors the box in the unscaled frame: re-order its corners component-wise.
+        let ref_a = aabb.mins.coords.component_div(&self.scale);
+        let ref_b = aabb.maxs.coords.component_div(&self.scale);
+        let (ref_mins, ref_maxs) = (ref_a.inf(&ref_b), ref_a.sup(&ref_b));
         let cell_width = self.unit_cell_width();
         let cell_height = self.unit_cell_height();
 
